@@ -112,6 +112,8 @@ def gen_workload(tape, *, max_funcs=5, max_size=3, allow_gen=True, allow_tuple=T
             fd["debug"] = True
         if n_out == 1 and kind != "gen" and tape.coin(0.1, "sequence-valued"):
             fd["seq_out"] = True  # each element / the single result is a 2-tuple
+        elif n_out == 1 and kind != "gen" and tape.coin(0.1, "result-like"):
+            fd["result_like"] = True  # the value has a .result() method of its own
         # extra bound / default parameters
         if allow_defaults and tape.coin(0.15, "bound"):
             b = f"b{counters['b']}"
@@ -173,9 +175,32 @@ def gen_workload(tape, *, max_funcs=5, max_size=3, allow_gen=True, allow_tuple=T
             else:
                 scalars.append(o)
     _none_only_for_leaves(funcs)
+    if tape.coin(0.12, "scoped-inputs"):
+        roots = [n for n, d in inputs.items() if d["kind"] in ("scalar", "list", "ndarray")]
+        if len(roots) >= 2:
+            chosen = tape.shuffle(roots, "scope-pick")[: 2 + tape.choose(2, "scope-n")]
+            inputs = _apply_scope(funcs, inputs, chosen, "sc")
     w = {"indices": idx_size, "inputs": inputs, "functions": funcs,
          "internal_via": tape.pick(["pipefunc", "map-arg", "both"], "internal-via")}
     return w
+
+
+def _apply_scope(funcs, inputs, names, scope):
+    """Give some root inputs dotted pipeline-level names ('sc.x0'), as PipeFunc(scope=...) / renames do."""
+    import re
+
+    ren = {n: f"{scope}.{n}" for n in names}
+    for fd in funcs:
+        hit = [p_ for p_ in fd["params"] if p_ in ren]
+        if not hit:
+            continue
+        fd["params"] = [ren.get(p_, p_) for p_ in fd["params"]]
+        fd["renamed"] = sorted(set(fd.get("renamed", [])) - set(hit) | {ren[p_] for p_ in hit})
+        fd["renamed"] = [ren.get(r, r) for r in fd["renamed"]]
+        if fd.get("mapspec"):
+            for old_, new_ in ren.items():
+                fd["mapspec"] = re.sub(rf"(?<![\w.]){re.escape(old_)}\[", f"{new_}[", fd["mapspec"])
+    return {ren.get(k, k): v for k, v in inputs.items()}
 
 
 def _none_only_for_leaves(funcs):
@@ -221,12 +246,13 @@ def build_pipeline(w, *, cached=(), tags=None, **pipeline_kwargs):
 
     pfs = []
     for fd in w["functions"]:
-        inner = {p_: f"in_{p_}" for p_ in fd.get("renamed", [])}
+        inner = {p_: "in_" + p_.replace(".", "_") for p_ in fd.get("renamed", [])}
         fn = Fn(fd["name"], [inner.get(p_, p_) for p_ in fd["params"]], defaults=fd.get("sig_defaults") or None,
                 n_out=len(fd["outputs"]), out_shape=fd.get("out_shape"),
                 tag=(tags or {}).get(fd["name"], ""), none_mod=0 if fd.get("out_shape") else fd.get("none_mod", 0),
                 seq_out=bool(fd.get("seq_out")) and not fd.get("out_shape"),
-                outer={v: k for k, v in inner.items()}, dict_out=fd["outputs"] if fd.get("dict_out") else None)
+                outer={v: k for k, v in inner.items()}, dict_out=fd["outputs"] if fd.get("dict_out") else None,
+                result_like=bool(fd.get("result_like")) and not fd.get("out_shape") and not fd.get("none_mod"))
         out = fd["outputs"][0] if len(fd["outputs"]) == 1 else tuple(fd["outputs"])
         kw = {}
         if fd.get("out_shape") and w.get("internal_via", "pipefunc") in ("pipefunc", "both"):
@@ -275,6 +301,7 @@ def describe(w):
              **({"renamed": fd["renamed"]} if fd.get("renamed") else {}),
              **({"dict_out": True} if fd.get("dict_out") else {}),
              **({"debug": True} if fd.get("debug") else {}),
+             **({"result_like": True} if fd.get("result_like") else {}),
              **({"bound": fd["bound"]} if fd.get("bound") else {}),
              **({"defaults": {**fd["defaults"], **fd["sig_defaults"]}} if fd.get("defaults") or fd.get("sig_defaults") else {})}
             for fd in w["functions"]
